@@ -187,7 +187,34 @@ Definition having_names_ok (q : aquery) : Prop :=
     nth_error (q_aggs q) (i - length (q_keys q)) = Some a ->
     plain_agg a = true /\ (a_fn a = FCountStar -> forall b, In b (q_aggs q) -> a_fn b = FCount -> plain_agg b = true).
 
-Theorem query_correct_expression_arguments : forall q t rs,
+(* outside class 9 (with plain keys) HAVING finds its aggregates *)
+Lemma class0_having_names : forall q t, forallb is_plain (q_keys q) = true -> q_class q t = 0 -> having_names_ok q.
+Proof.
+  intros q t Hk C. unfold q_class in C. destruct (cls_key_expr q); [discriminate|].
+  destruct (cls_arg_expr q) eqn:C9; [discriminate|]. clear C.
+  unfold cls_arg_expr in C9. apply orb_false_iff in C9 as [C9 _].
+  intros h i a Hh Hi L Na. unfold having_cols in C9. rewrite Hh in C9.
+  assert (B : forall x, In x (cols_of h) ->
+    negb (Nat.ltb x (length (q_keys q))) &&
+    match nth_error (q_aggs q) (x - length (q_keys q)) with
+    | Some a0 => nonplain_agg a0 || match a_fn a0 with FCountStar => count_expr q | _ => false end
+    | None => false
+    end = false).
+  { intros x Hx. destruct (_ && _) eqn:E; [|reflexivity]. exfalso.
+    assert (existsb (fun i0 => negb (Nat.ltb i0 (length (q_keys q))) &&
+      match nth_error (q_aggs q) (i0 - length (q_keys q)) with
+      | Some a0 => nonplain_agg a0 || match a_fn a0 with FCountStar => count_expr q | _ => false end
+      | None => false
+      end) (cols_of h) = true) by (apply existsb_exists; eauto). congruence. }
+  specialize (B i Hi). rewrite L, Na in B. cbn [negb andb] in B. apply orb_false_iff in B as [B1 B2]. split.
+  - unfold nonplain_agg in B1. unfold plain_agg. destruct (a_fn a); auto; now apply negb_false_iff in B1.
+  - intros Hs b Ib Fb. rewrite Hs in B2. unfold count_expr in B2. unfold plain_agg. rewrite Fb.
+    destruct (is_plain (a_arg b)) eqn:Pb; [reflexivity|]. exfalso.
+    assert (existsb (fun a0 => match a_fn a0 with FCount => negb (is_plain (a_arg a0)) | _ => false end) (q_aggs q) = true)
+      by (apply existsb_exists; exists b; split; [exact Ib|now rewrite Fb, Pb]). congruence.
+Qed.
+
+Theorem query_correct_expression_arguments_names : forall q t rs,
   forallb is_plain (q_keys q) = true -> forallb ok_agg (q_aggs q) = true -> having_names_ok q ->
   q_int_sums q t = true ->
   spec_query q t = SRows rs -> model_query q t = MRows rs.
@@ -254,4 +281,14 @@ Proof.
     destruct (having_filter_ok q Hkeys h gs envs Hall R HO) as [gs' [E R']].
     rewrite E. cbn [sbind]. now rewrite (project_all_ok q Hkeys Haggs gs' _ out R' P).
   - cbn [having_rows] in P. cbn [sbind]. now rewrite (project_all_ok q Hkeys Haggs gs envs out R P).
+Qed.
+
+(* ... stated with the class: plain-column keys, aggregates over the expression fragment, outside class 9 *)
+Theorem query_correct_expression_arguments : forall q t rs,
+  forallb is_plain (q_keys q) = true -> forallb ok_agg (q_aggs q) = true -> q_class q t = 0 ->
+  q_int_sums q t = true ->
+  spec_query q t = SRows rs -> model_query q t = MRows rs.
+Proof.
+  intros q t rs Hkeys Haggs C. apply query_correct_expression_arguments_names; auto.
+  now apply (class0_having_names q t).
 Qed.
